@@ -100,10 +100,10 @@ IndentCases ==
 CountCases ==
   {ShapeCase(s, d, 0, 200000, <<63, 0>>, 120000) : s \in CountShapes, d \in Counts}
 
-DeepDepths == IF Tier = "quick" THEN {Pow2(10), Pow2(14)} ELSE {Pow2(10), Pow2(14), Pow2(17), Pow2(20), Pow2(21)}
+DeepExps == IF Tier = "quick" THEN {10, 14} ELSE {10, 14, 17, 20, 21}
 DeepCases ==
-  {ShapeCase(Shape("text", op[1], DeepText(op, n), "", "", "", ""), n, Len(DeepText(op, n)),
-             40 * n + 10000, <<63>>, 1800000) : op \in DeepOps, n \in DeepDepths}
+  UNION {{ShapeCase(Shape("text", op[1], DeepText(op, Pow2(k)), "", "", "", ""), Pow2(k), Len(DeepText(op, Pow2(k))),
+                    40 * Pow2(k) + 10000, <<63>>, 900000) : k \in {k \in DeepExps : k <= op[3]}} : op \in DeepOps}
 
 ShapeCases == NestCases \cup IndentCases \cup CountCases \cup DeepCases
 NoShape == ShapeCase(Shape("none", "", "", "", "", "", ""), 0, 0, 0, <<>>, 0)
